@@ -14,14 +14,58 @@ Search: independent reachability computation of which cells lie on / depend on a
   property is silent, they are compared with the model only), normal values elsewhere; the
   same after incremental edits that create and break cycles; under several schedules.
 Interpretation: formulas are sums of references (strict in errors: no IFERROR / try).
+
+Cycles whose cells hold DECODED error values when they are recalculated (second half of the file).
+  A live engine stores error cells as objtypes.RaisedException objects that carry the python
+  exception (.error).  The same cell value also travels in encoded form (["E", "CircularRefError"])
+  in action reprs and in stored documents; decoding gives a RaisedException whose .error is None.
+  The recalculation then starts from cells that hold such decoded objects:
+    * undo of a record removal  (RemoveRecord / BulkRemoveRecord of rows of a table with circular
+      formulas, then ApplyUndoActions of the JSON round trip of the undo: its AddRecord /
+      BulkAddRecord carries the formula columns' encoded errors; the re-added rows are recalculated),
+    * undo of a table removal   (same, every row, after AddTable),
+    * undo of a column removal  (the BulkUpdateRecords of the undo restore the encoded errors of the
+      columns that read the removed one; AddColumn recalculates it and its readers),
+    * loading a stored document (load_meta_tables / load_table with values decoded the way the
+      action-repr (JSON) and the database (marshalled blob) paths decode them, then load_done() or
+      the Calculate user action; every formula cell is recalculated).
+  Each is followed by a data edit (and for the witnesses and a sample of the others by a formula
+  edit) so that readers are evaluated again on top of the restored cells.  The live-engine part
+  (build, data edit, formula edit) comes first and is unchanged.
+  Direct oracle in these situations (the property's clauses, nothing from the model):
+    - no step raises;
+    - every cell on a cycle holds CircularRefError, every cell off every cycle its normal value;
+    - a cell that merely depends on a cycle and held CircularRefError in the live engine before the
+      step still holds it afterwards (a value that a removal+undo or store+load must give back);
+    - "holds a CircularRefError value" includes what a reader of the cell gets: for every cell on or
+      behind a cycle that reports CircularRefError, column.get_cell_value (the way every formula
+      reads a cell) must raise an error whose root is depend.CircularRefError (this is what the
+      next formula that reads the cell will store), and must not raise for any cell off the cycles.
+  Tie in these situations: record-removal undo (re-added rows), table-removal undo and document
+  load recalculate EVERY formula cell of the rows concerned, which is exactly the start state of the
+  driver's "graph" op (all formula cells dirty, their old contents immaterial), so the engine's
+  finishing order and values are replayed in the Lean machine as well.  Column-removal undo and the
+  data / formula edits recalculate only a part and are judged by the direct oracle only.
 """
 import itertools
 import json
+import marshal
 import random
 
 from gx import common
 
 MODS = ["GristProps.C18"]
+
+# Fixed witnesses (k, deps): always run, in every family, under both schedules.
+WITNESSES = [
+  (5, [[1, 5], [0], [2], [1], [5]]),     # 2-cycle through data, self loop, dependent of the cycle, bystander
+  (1, [[0]]),                            # lone self loop: nobody reads the flagged cell (reader probe only)
+  (2, [[0], [0]]),                       # self loop + one dependent
+  (3, [[1], [2], [0]]),                  # 3-cycle
+  (5, [[1], [0], [3], [2], [5]]),        # two disjoint 2-cycles + bystander
+  (3, [[1, 3], [0], [1]]),               # 2-cycle + dependent
+  (4, [[1], [0, 2], [1], [2, 0]]),       # two cycles sharing a cell + dependent of both
+]
 
 
 def run(ck):
@@ -29,11 +73,25 @@ def run(ck):
   from gx import engine_driver as ed
   from gx import recalc_harness as rh
   ck.rule = ("dependency graphs over k formula columns (each references any subset of the k columns and a data "
-             "column): k=2 all 64, k=3 all 4096 (quick: 500 sampled), k=4 sampled; 1-2 rows; each under 2 schedules "
-             "and followed by incremental edits; non-trivial = graph with at least one cycle AND at least one cell "
+             "column): k=2 all 64, k=3 all 4096 (quick: 500 sampled), k=4 sampled, 7 fixed witnesses (k<=5); 1-2 rows; "
+             "each under 2 schedules and followed by incremental edits, by a removal of rows + undo (decoded error "
+             "values recalculated), and (all witnesses, 10% of the others each; thorough 5%) by removal of a column / of the table "
+             "+ undo; a sample of cyclic graphs is stored and loaded into a new engine (JSON-repr and DB-blob decoding; "
+             "load_done and Calculate); non-trivial = graph with at least one cycle AND at least one cell "
              "off every cycle; distinct by (k, deps)")
   ck.assumptions = ["formulas are sums of cell references, strict in errors (no IFERROR/try)",
-                    "same-row references only in the exhaustive family (cross-row cycles are in the history-based C05/C06 runs)"]
+                    "same-row references only in the exhaustive family (cross-row cycles are in the history-based C05/C06 runs)",
+                    "decoded-error situations (undo of record / column / table removal, loading a stored document): "
+                    "judged by the direct oracle (cycle cells hold CircularRefError, dependents keep the CircularRefError "
+                    "they held before the step, off-cycle cells their value, get_cell_value of such a cell raises "
+                    "CircularRefError for its readers); the Lean machine is tied only where every formula cell of the "
+                    "rows concerned is recalculated (record-removal undo, table-removal undo, document load) - "
+                    "column-removal undo and the data/formula edits that follow a restored state recalculate a part "
+                    "only and are judged by the direct oracle ONLY",
+                    "the Lean model has one abstract CircularRefError value: the difference between a live error object "
+                    "and a decoded one (.error is None) is not modelled; it is observed by the direct oracle's reader probe",
+                    "stored form of a document = fetch_table(formulas=True) of every table, cell values encoded and "
+                    "decoded as action reprs (JSON) or as marshalled DB blobs (compound values only), not a real SQLite file"]
   ck.lean(MODS)
   rng = ck.rng
   graphs = []
@@ -46,16 +104,21 @@ def run(ck):
     n4 = 80
   else:
     graphs += g3
-    n4 = 6000
+    n4 = 3000
   subsets4 = [[j for j in range(5) if m >> j & 1] for m in range(32)]
   for _ in range(n4):
     graphs.append((4, [list(rng.choice(subsets4)) for _ in range(4)]))
+  n_wit = len(WITNESSES)
+  graphs = [(k, [list(x) for x in d]) for (k, d) in WITNESSES] + graphs
+  # share of the generated graphs that also go through column-removal undo / table-removal undo /
+  # a formula edit after the record-removal undo (the witnesses always do)
+  frac = 0.1 if ck.tier == "quick" else 0.05
 
   ops, metas = [], []
   doc = ed.Doc()
   n_in_doc = 0
   tnum = 0
-  for (k, deps) in graphs:
+  for gi, (k, deps) in enumerate(graphs):
     if n_in_doc >= 150:
       doc = ed.Doc(); n_in_doc = 0
     n_in_doc += 1
@@ -65,38 +128,55 @@ def run(ck):
     dvals = [rng.randint(0, 9) for _ in range(rows)]
     tid = "G%d" % tnum
     seed = rng.randint(0, 10 ** 6)
+    witness = gi < n_wit
     for perm in (None, seed):
-      with rh.Recording(perm_seed=perm, trace=True, reads=True) as rec:
-        r1 = doc.apply([["AddTable", tid, rh.graph_columns(k, deps, konst)],
-                        ["BulkAddRecord", tid, [None] * rows, {"d": dvals}]])
-      ck.evaluated()
-      if not r1.ok:
-        ck.violation("recalculation raised an internal error: " + r1.error[0], "%s k=%d deps=%r" % (r1.error[1], k, deps),
-                     {"k": k, "deps": deps, "konst": konst, "dvals": dvals, "perm": perm})
+      g = GraphTable(ck, doc, tid, k, deps, konst, dvals, perm, ops, metas)
+      if not g.do(["build"]):
         break
-      check_graph(ck, doc, tid, k, deps, konst, dvals, rec, perm, ops, metas, "initial")
       # incremental edits: change d, then rewire one column (may create or break a cycle)
-      with rh.Recording(perm_seed=perm, trace=True, reads=True) as rec2:
-        dvals2 = [v + 1 for v in dvals]
-        r2 = doc.apply([["BulkUpdateRecord", tid, list(range(1, rows + 1)), {"d": dvals2}]])
-      if not r2.ok:
-        ck.violation("recalculation raised an internal error: " + r2.error[0], r2.error[1], {"k": k, "deps": deps, "edit": "d"})
+      if not g.do(["data", [v + 1 for v in dvals]]):
         break
-      check_graph(ck, doc, tid, k, deps, konst, dvals2, rec2, perm, None, None, "after data edit")
       i = rng.randrange(k)
-      deps2 = [list(x) for x in deps]
-      deps2[i] = [j for j in range(k + 1) if rng.random() < 0.5]
-      with rh.Recording(perm_seed=perm, trace=True, reads=True) as rec3:
-        r3 = doc.apply([["ModifyColumn", tid, "c%d" % i, {"formula": rh.graph_columns(k, deps2, konst)[i + 1]["formula"]}]])
-      if not r3.ok:
-        ck.violation("recalculation raised an internal error: " + r3.error[0], r3.error[1],
-                     {"k": k, "deps": deps, "deps2": deps2, "edit": "formula"})
+      if not g.do(["formula", i, [j for j in range(k + 1) if rng.random() < 0.5]]):
         break
-      check_graph(ck, doc, tid, k, deps2, konst, dvals2, rec3, perm, None, None, "after formula edit")
+      if witness and not g.do(["formula", i, list(deps[i])]):     # witnesses: back to the designed graph
+        break
+      # rows removed and the removal undone: the re-added rows' formula cells are recalculated
+      # starting from the decoded errors of the undo action; then a data edit (and for some a
+      # formula edit) on top of that, so that readers are evaluated again
+      if rng.random() < 0.5:
+        gone = list(g.row_ids)
+      else:
+        gone = sorted(rng.sample(g.row_ids, rng.randint(1, len(g.row_ids))))
+      if not g.do(["undo_rows", gone]):
+        break
+      if not g.do(["data", [g.dv[r] + (2 if r in gone else 0) for r in g.row_ids]]):
+        break
+      if witness or rng.random() < frac:
+        if not g.do(["formula", rng.randrange(k), [j for j in range(k + 1) if rng.random() < 0.5]]):
+          break
+      x = rng.random()
+      if witness or x < frac:
+        if not g.do(["undo_column", rng.randrange(k)]):
+          break
+        if not g.do(["data", [g.dv[r] + 1 for r in g.row_ids]]):
+          break
+      if witness or frac <= x < 2 * frac:
+        if not g.do(["undo_table"]):
+          break
+        if not g.do(["data", [g.dv[r] + 1 for r in g.row_ids]]):
+          break
       doc.apply([["RemoveTable", tid]])
       if perm is None:
         tnum += 1
         tid = "G%d" % tnum
+
+  # stored documents: cyclic graphs (and the witnesses) stored and loaded into new engines
+  cyclic = [(k, d) for (k, d) in graphs[n_wit:] if any(rh.expected_values(k, d, [0] * k, 0)[1])]
+  n_store = 45 if ck.tier == "quick" else 400
+  chosen = graphs[:n_wit] + (rng.sample(cyclic, n_store) if len(cyclic) > n_store else cyclic)
+  stored_documents(ck, rng, chosen, ops, metas, per_doc=26, all_variants=(ck.tier != "quick"))
+
   # model side
   answers = ck.driver(ops)
   mism = None
@@ -108,6 +188,7 @@ def run(ck):
     eng = meta["engine_cells"]
     m = ["circ" if v == "circ" else "i%d" % v for v in model_vals]
     e = [("circ" if v == rh.CIRC else v) for v in eng]
+    ck.count("tie_runs[%s]" % meta["when"])
     if m != e or not ans["trace"]["accepted"] or ans["trace"].get("dirty_left") or ans["dirty_left"]:
       ck.count("model_impl_disagreements")
       if mism is None:
@@ -117,54 +198,438 @@ def run(ck):
               "engine values or finishing order are not an accepted run of the model", mism)
 
 
-def check_graph(ck, doc, tid, k, deps, konst, dvals, rec, perm, ops, metas, when):
+# --------------------------------------------------------------------------- one graph table
+
+class GraphTable(object):
+  """One dependency-graph table in one document and the steps applied to it so far (the steps are
+  the replayable input: a violation's replay object carries them)."""
+
+  def __init__(self, ck, doc, tid, k, deps, konst, dvals, perm, ops, metas):
+    self.ck, self.doc, self.tid, self.k = ck, doc, tid, k
+    self.deps = [list(x) for x in deps]
+    self.konst = list(konst)
+    self.perm, self.ops, self.metas = perm, ops, metas
+    self.deps0 = [list(x) for x in deps]
+    self.dvals0 = list(dvals)
+    self.row_ids = list(range(1, len(dvals) + 1))
+    self.dv = dict(zip(self.row_ids, dvals))
+    self.steps = []
+    self.ctx = None          # the latest decoded-error situation this table went through
+    self.live_before = None  # the table in the live engine before that situation (same graph since)
+
+  # ---- replay object (old keys kept; "steps" from the initial build on make it exact)
+  def rp(self, when):
+    return {"k": self.k, "deps": self.deps, "konst": self.konst, "dvals": [self.dv[r] for r in self.row_ids],
+            "perm": self.perm, "when": when, "deps0": self.deps0, "dvals0": self.dvals0,
+            "steps": [list(s) for s in self.steps]}
+
+  def _when(self, base):
+    return base if self.ctx is None else "%s, following %s" % (base, self.ctx)
+
+  def _apply(self, bundle, what, record=True):
+    """Apply one bundle under the schedule; returns (result, recording) or (None, None) after
+    recording the violation of the 'terminates without an internal error' clause."""
+    from gx import recalc_harness as rh
+    with rh.Recording(perm_seed=self.perm, trace=True, reads=True) as rec:
+      r = self.doc.apply(bundle)
+    if not r.ok:
+      if what in ("initial", "after data edit", "after formula edit"):
+        sig = "recalculation raised an internal error: " + r.error[0]
+      else:
+        sig = "recalculation raised an internal error (%s): %s" % (what, r.error[0])
+      self.ck.violation(sig, "%s k=%d deps=%r" % (r.error[1], self.k, self.deps), self.rp(what))
+      return None, None
+    return r, rec
+
+  def snap(self):
+    return self.doc.snapshot(tables=[self.tid])[self.tid]
+
+  def do(self, step):
+    """Perform one step and judge the outcome; False = stop with this table."""
+    from gx import recalc_harness as rh
+    ck, tid, k = self.ck, self.tid, self.k
+    self.steps.append(list(step))
+    kind = step[0]
+    if kind == "build":
+      r, rec = self._apply([["AddTable", tid, rh.graph_columns(k, self.deps, self.konst)],
+                            ["BulkAddRecord", tid, [None] * len(self.row_ids), {"d": [self.dv[x] for x in self.row_ids]}]],
+                           "initial")
+      ck.evaluated()
+      if r is None:
+        return False
+      self.check(rec, "initial", tie_rows=self.row_ids)
+      return True
+    if kind == "data":
+      newd = list(step[1])
+      when = self._when("after data edit")
+      r, rec = self._apply([["BulkUpdateRecord", tid, list(self.row_ids), {"d": newd}]], when)
+      if r is None:
+        return False
+      self.dv = dict(zip(self.row_ids, newd))
+      if self.ctx is not None:
+        ck.count("data_edit_following[%s]" % self.ctx)
+      self.check(rec, when, strict=self.ctx is not None, before=self.live_before)
+      return True
+    if kind == "formula":
+      i, nd = step[1], list(step[2])
+      deps2 = [list(x) for x in self.deps]
+      deps2[i] = nd
+      when = self._when("after formula edit")
+      r, rec = self._apply([["ModifyColumn", tid, "c%d" % i,
+                             {"formula": rh.graph_columns(k, deps2, self.konst)[i + 1]["formula"]}]], when)
+      if r is None:
+        return False
+      self.deps = deps2
+      self.live_before = None
+      if self.ctx is not None:
+        ck.count("formula_edit_following[%s]" % self.ctx)
+      # the graph changed: dependents are judged by the property's clauses, not by their old value
+      self.check(rec, when, probe=self.ctx is not None)
+      return True
+    if kind == "undo_rows":
+      gone = list(step[1])
+      before = self.snap()
+      ctx = "undo of record removal"
+      act = ["RemoveRecord", tid, gone[0]] if len(gone) == 1 else ["BulkRemoveRecord", tid, gone]
+      r, rec = self._apply([act], "record removal")
+      ck.evaluated()
+      if r is None:
+        return False
+      kept = [x for x in self.row_ids if x not in gone]
+      all_rows = self.row_ids
+      self.row_ids = kept
+      self.check(rec, "after record removal", strict=True, before=before)
+      self.row_ids = all_rows
+      n_dec = count_encoded_errors(r.raw_undo, tid)
+      und = json.loads(json.dumps(r.raw_undo))       # as the undo travels outside the sandbox
+      u, rec2 = self._apply([["ApplyUndoActions", und]], ctx)
+      if u is None:
+        return False
+      self.ctx = ctx
+      self.live_before = before
+      self._count_situation(ctx, n_dec)
+      self.check(rec2, "after " + ctx, strict=True, before=before, tie_rows=gone)
+      return True
+    if kind == "undo_column":
+      i = step[1]
+      before = self.snap()
+      ctx = "undo of column removal"
+      r, rec = self._apply([["RemoveColumn", tid, "c%d" % i]], "column removal")
+      ck.evaluated()
+      if r is None:
+        return False
+      n_dec = count_encoded_errors(r.raw_undo, tid)
+      und = json.loads(json.dumps(r.raw_undo))
+      u, rec2 = self._apply([["ApplyUndoActions", und]], ctx)
+      if u is None:
+        return False
+      self.ctx = ctx
+      self.live_before = before
+      self._count_situation(ctx, n_dec)
+      self.check(rec2, "after " + ctx, strict=True, before=before)      # partial recalculation: no tie
+      return True
+    if kind == "undo_table":
+      before = self.snap()
+      ctx = "undo of table removal"
+      r, rec = self._apply([["RemoveTable", tid]], "table removal")
+      ck.evaluated()
+      if r is None:
+        return False
+      n_dec = count_encoded_errors(r.raw_undo, tid)
+      und = json.loads(json.dumps(r.raw_undo))
+      u, rec2 = self._apply([["ApplyUndoActions", und]], ctx)
+      if u is None:
+        return False
+      self.ctx = ctx
+      self.live_before = before
+      self._count_situation(ctx, n_dec)
+      self.check(rec2, "after " + ctx, strict=True, before=before, tie_rows=self.row_ids)
+      return True
+    if kind == "reload":
+      before = self.snap()
+      d2, rec, err, n_dec = reload_doc(self.doc, step[1], step[2], self.perm)
+      ck.evaluated()
+      return self.loaded(d2, rec, err, n_dec.get(tid, 0), before, reads=True)
+    raise common.Infra("c18: unknown step %r" % (step,))
+
+  def loaded(self, d2, rec, err, n_dec, before, reads):
+    """This table's part of the judgement of a document load (d2 = the new engine)."""
+    ctx = "stored document loaded"
+    if err is not None:
+      self.ck.violation("recalculation raised an internal error (%s): %s" % (ctx, err[0]),
+                        "%s k=%d deps=%r" % (err[1], self.k, self.deps), self.rp(ctx))
+      return False
+    self.doc = d2
+    self.ctx = ctx
+    self.live_before = before
+    self._count_situation(ctx, n_dec)
+    self.check(rec, "after " + ctx, strict=True, before=before, tie_rows=self.row_ids, reads=reads)
+    return True
+
+  def _count_situation(self, ctx, n_dec):
+    from gx import recalc_harness as rh
+    ck = self.ck
+    ck.count("situations[%s]" % ctx)
+    _, on_cycle, bad = rh.expected_values(self.k, self.deps, self.konst, 0)
+    if any(on_cycle):
+      ck.count("situations_with_cycle[%s]" % ctx)
+      if n_dec:
+        ck.count("situations_with_cycle_and_decoded_errors[%s]" % ctx)
+    ck.count("decoded_error_cells_recalculated[%s]" % ctx, n_dec)
+
+  def check(self, rec, when, strict=False, before=None, tie_rows=None, reads=True, probe=None):
+    check_graph(self.ck, self.doc, self.tid, self.k, self.deps, self.konst,
+                [self.dv[r] for r in self.row_ids], rec, self.perm,
+                self.ops if tie_rows is not None else None, self.metas if tie_rows is not None else None,
+                when, row_ids=self.row_ids, strict=strict, before=before, tie_rows=tie_rows,
+                replay=self.rp(when), reads=reads, probe=strict if probe is None else probe)
+
+
+def count_encoded_errors(raw_actions, tid):
+  """Encoded error cell values (["E", ...]) that record actions on `tid` in an undo carry."""
+  n = 0
+  for a in raw_actions or []:
+    if a[0] in ("AddRecord", "UpdateRecord") and a[1] == tid:
+      n += sum(1 for v in a[3].values() if isinstance(v, list) and v[:1] == ["E"])
+    elif a[0] in ("BulkAddRecord", "BulkUpdateRecord", "ReplaceTableData") and a[1] == tid:
+      n += sum(1 for vals in a[3].values() for v in vals if isinstance(v, list) and v[:1] == ["E"])
+  return n
+
+
+# --------------------------------------------------------------------------- stored documents
+
+def _stored_json(td):
+  """A table as it is stored / sent and read back through action reprs (JSON)."""
+  import actions
+  rep = json.loads(json.dumps(actions.get_action_repr(actions.ReplaceTableData(*td))))
+  return actions.TableData(*actions.action_from_repr(rep))
+
+
+def _stored_db(td):
+  """A table as the database path gives it back: compound values are marshalled blobs that are
+  decoded with objtypes.decode_object (main._decode_db_value); primitives come back as they are."""
+  import actions
+  import objtypes
+  cols = {}
+  for c, vals in td.columns.items():
+    out = []
+    for v in vals:
+      ev = objtypes.encode_object(v)
+      if isinstance(ev, list):
+        out.append(objtypes.decode_object(marshal.loads(marshal.dumps(ev))))
+      else:
+        out.append(ev)
+    cols[c] = out
+  return actions.TableData(td.table_id, list(td.row_ids), cols)
+
+
+def reload_doc(doc, conv, fin, perm):
+  """A new engine loaded from the stored form of `doc` (formula results included, decoded), then
+  load_done() or the Calculate user action under the schedule `perm`.
+  Returns (Doc-like wrapper, recording, error or None, {table: decoded error objects loaded})."""
+  from gx import engine_driver as ed
   from gx import recalc_harness as rh
+  import engine as engine_mod
+  import objtypes
+  f = {"json": _stored_json, "db": _stored_db}[conv]
+  src = doc.engine
+  ed.install_wrappers()
+  d2 = ed.Doc.__new__(ed.Doc)
+  d2.engine = engine_mod.Engine()
+  d2.history = []
+  n_dec = {}
+  rec = None
+  try:
+    mt = f(src.fetch_table('_grist_Tables', formulas=True))
+    mc = f(src.fetch_table('_grist_Tables_column', formulas=True))
+    d2.engine.load_meta_tables(mt, mc)
+    for tid in sorted(src.tables):
+      if tid in ('_grist_Tables', '_grist_Tables_column'):
+        continue
+      td = f(src.fetch_table(tid, formulas=True))
+      if not tid.startswith("_grist_"):
+        n_dec[tid] = sum(1 for vals in td.columns.values() for v in vals
+                         if isinstance(v, objtypes.RaisedException) and v.error is None)
+      d2.engine.load_table(td)
+    with rh.Recording(perm_seed=perm, trace=True, reads=True) as rec:
+      if fin == "load_done":
+        d2.engine.load_done()
+        err = None
+      else:
+        r = d2.apply([["Calculate"]], record=False)
+        err = None if r.ok else r.error
+  except Exception as e:     # the code under test may raise: judged by the caller ("total" clause)
+    err = (type(e).__name__, str(e).split("\n")[0][:200])
+  return d2, rec, err, n_dec
+
+
+def stored_documents(ck, rng, chosen, ops, metas, per_doc, all_variants):
+  from gx import engine_driver as ed
+  from gx import recalc_harness as rh
+  variants_a = [("json", "load_done", False), ("db", "Calculate", True)]
+  variants_b = [("db", "load_done", False), ("json", "Calculate", True)]
+  for di in range(0, len(chosen), per_doc):
+    part = chosen[di:di + per_doc]
+    doc = ed.Doc()
+    base = []
+    for ti, (k, deps) in enumerate(part):
+      konst = [rng.randint(1, 3) for _ in range(k)]
+      dvals = [rng.randint(0, 9) for _ in range(rng.choice([1, 2]))]
+      g = GraphTable(ck, doc, "S%d" % (ti + 1), k, deps, konst, dvals, None, None, None)
+      g.steps.append(["build"])
+      r = doc.apply([["AddTable", g.tid, rh.graph_columns(k, deps, konst)],
+                     ["BulkAddRecord", g.tid, [None] * len(dvals), {"d": dvals}]])
+      if not r.ok:      # judged in the main loop for every graph; here only a precondition
+        ck.count("stored_document_table_not_built")
+        continue
+      base.append(g)
+    seed = rng.randint(0, 10 ** 6)
+    if all_variants:
+      variants = variants_a + [("db", "load_done", True), ("json", "Calculate", False)]
+    else:
+      variants = variants_a if (di // per_doc) % 2 == 0 else variants_b
+    befores = {g.tid: g.snap() for g in base}
+    for (conv, fin, permuted) in variants:
+      perm = seed if permuted else None
+      d2, rec, err, n_dec = reload_doc(doc, conv, fin, perm)
+      ck.evaluated()
+      ck.count("documents_loaded[%s,%s]" % (conv, fin))
+      bad_reads = rh.dirty_read_violations(rec.reads) if rec is not None else []
+      loaded = []
+      for g in base:
+        g2 = GraphTable(ck, doc, g.tid, g.k, g.deps, g.konst, g.dvals0, perm, ops, metas)
+        g2.steps = [["build"], ["reload", conv, fin]]
+        if g2.loaded(d2, rec, err, n_dec.get(g.tid, 0), befores[g.tid], reads=False):
+          loaded.append(g2)
+        if bad_reads and any(c[0] == g.tid for (c, _) in bad_reads):
+          ck.violation("an evaluation completed although it read a dirty cell", repr(bad_reads[:2]),
+                       g2.rp("after stored document loaded"))
+      # readers evaluated again on top of the loaded state
+      for j, g2 in enumerate(loaded):
+        if not g2.do(["data", [g2.dv[r] + 1 for r in g2.row_ids]]):
+          continue
+        if j < 3:
+          g2.do(["formula", rng.randrange(g2.k), [x for x in range(g2.k + 1) if rng.random() < 0.5]])
+
+
+# --------------------------------------------------------------------------- the direct oracle
+
+def reader_view(doc, tid, col_id, row_id):
+  """What a formula reading this cell gets: None for a value, else the class name of the root of
+  the raised error (CellError wrappers followed) - which is what the reader would store."""
+  col = doc.engine.tables[tid].get_column(col_id)
+  try:
+    col.get_cell_value(row_id)
+    return None
+  except Exception as e:          # pylint: disable=broad-except
+    seen = 0
+    while type(e).__name__ == "CellError" and hasattr(e, "error") and seen < 50:
+      e = e.error
+      seen += 1
+    return type(e).__name__
+
+
+def check_graph(ck, doc, tid, k, deps, konst, dvals, rec, perm, ops, metas, when, row_ids=None,
+                strict=False, before=None, tie_rows=None, replay=None, reads=True, probe=False):
+  """dvals[j] is the data value of row row_ids[j] (default rows 1..n).
+  strict/before: decoded-error situations - a cell that merely depends on a cycle must still hold
+  the CircularRefError it held in `before` (snapshot of the table in the live engine).
+  probe: also ask what a reader of each cell gets.  tie_rows: rows whose finishing order goes to
+  the Lean machine (all their formula cells were dirty)."""
+  from gx import recalc_harness as rh
+  if row_ids is None:
+    row_ids = list(range(1, len(dvals) + 1))
+  if replay is None:
+    replay = {"k": k, "deps": deps, "konst": konst, "dvals": dvals, "perm": perm, "when": when}
   snap = doc.snapshot(tables=[tid])[tid]
   nontriv = False
   eng_cells = []
+  row_cells = {}
+  if list(snap["ids"]) != list(row_ids):
+    ck.violation("rows of a table with circular formulas differ from the rows expected (%s)" % when,
+                 "k=%d deps=%r rows %r expected %r" % (k, deps, snap["ids"], row_ids), replay)
+    return
   for ri, dv in enumerate(dvals):
+    rid = row_ids[ri]
     exp, on_cycle, bad = rh.expected_values(k, deps, konst, dv)
     if any(on_cycle) and not all(bad):
       nontriv = True
+    cells = []
     for i in range(k):
       got = snap["cols"]["c%d" % i][ri]
-      eng_cells.append(got)
+      cells.append(got)
       if on_cycle[i] and got != rh.CIRC:
         ck.violation("cell on a cycle does not hold CircularRefError (%s)" % when,
-                     "k=%d deps=%r col c%d got %r" % (k, deps, i, got),
-                     {"k": k, "deps": deps, "konst": konst, "dvals": dvals, "perm": perm, "when": when})
+                     "k=%d deps=%r row %d col c%d got %r" % (k, deps, rid, i, got), replay)
       elif not bad[i] and got != exp[i]:
         ck.violation("cell off every cycle has a wrong value (%s)" % when,
-                     "k=%d deps=%r col c%d got %r expected %r" % (k, deps, i, got, exp[i]),
-                     {"k": k, "deps": deps, "konst": konst, "dvals": dvals, "perm": perm, "when": when})
+                     "k=%d deps=%r row %d col c%d got %r expected %r" % (k, deps, rid, i, got, exp[i]), replay)
       elif bad[i] and not on_cycle[i] and got != rh.CIRC:
-        ck.count("depends_on_cycle_but_not_circ")
-    eng_cells.append("i%d" % dv)
-  bad_reads = rh.dirty_read_violations(rec.reads)
-  if bad_reads:
-    ck.violation("an evaluation completed although it read a dirty cell", repr(bad_reads[:2]),
-                 {"k": k, "deps": deps, "konst": konst, "dvals": dvals, "perm": perm, "when": when})
+        held = None
+        if strict and before is not None and rid in before["ids"]:
+          held = before["cols"]["c%d" % i][before["ids"].index(rid)]
+        if held == rh.CIRC:
+          ck.violation("cell depending on a cycle no longer holds the CircularRefError it held before (%s)" % when,
+                       "k=%d deps=%r row %d col c%d got %r" % (k, deps, rid, i, got), replay)
+        else:
+          ck.count("depends_on_cycle_but_not_circ")
+      if probe:
+        ck.count("reader_probes")
+        try:
+          seen = reader_view(doc, tid, "c%d" % i, rid)
+        except Exception as e:      # pylint: disable=broad-except
+          raise common.Infra("c18: reader probe failed: %r" % (e,))
+        if bad[i] and got == rh.CIRC and seen != "CircularRefError":
+          ck.count("reader_probe_failures")
+          ck.violation("reader of a cell reported as CircularRefError gets %s instead (%s)" % (seen, when),
+                       "k=%d deps=%r row %d col c%d: column.get_cell_value raised %s; the cell is %s a cycle"
+                       % (k, deps, rid, i, seen, "on" if on_cycle[i] else "behind"), replay)
+        elif not bad[i] and got == exp[i] and seen is not None:
+          ck.count("reader_probe_failures")
+          ck.violation("reader of a cell off every cycle gets an error (%s)" % when,
+                       "k=%d deps=%r row %d col c%d: column.get_cell_value raised %s" % (k, deps, rid, i, seen), replay)
+    cells.append("i%d" % dv)
+    eng_cells.extend(cells)
+    row_cells[rid] = cells
+  if reads:
+    bad_reads = rh.dirty_read_violations(rec.reads)
+    if bad_reads:
+      ck.violation("an evaluation completed although it read a dirty cell", repr(bad_reads[:2]), replay)
   if nontriv:
     ck.nontrivial_case([k, deps])
     ck.sample({"k": k, "deps": deps, "konst": konst, "d": dvals, "engine": eng_cells, "schedule_seed": perm})
   if ops is not None:
-    rows = len(dvals)
-    n = rows * (k + 1)
-    formula, mdeps, mk = [], [], []
-    for ri in range(rows):
-      base = ri * (k + 1)
-      for i in range(k):
-        formula.append(True); mdeps.append([base + j for j in deps[i]]); mk.append(konst[i])
-      formula.append(False); mdeps.append([]); mk.append(dvals[ri])
-    trace = []
-    for (kind, t, c, r) in rec.trace:
-      if t == tid and c.startswith("c") and c[1:].isdigit():
-        trace.append([kind, (r - 1) * (k + 1) + int(c[1:])])
-    ops.append({"m": "recalc", "op": "graph", "n": n, "formula": formula, "deps": mdeps, "konst": mk,
-                "order": list(range(n)), "trace": trace})
-    metas.append({"k": k, "rows": rows, "deps": deps, "konst": konst, "dvals": dvals, "perm": perm,
-                  "engine_cells": eng_cells, "trace": trace})
+    # the rows in tie_rows had every formula cell dirty; any other row of the table was clean, so an
+    # event on it is not a transition of this machine instance (cell index n: rejected by the model).
+    # In the decoded-error situations each row is its own machine instance (same-row references only:
+    # the rows are independent, and the model's cost grows quickly with the number of cells).
+    trows = list(tie_rows if tie_rows is not None else row_ids)
+    groups = [[rid] for rid in trows] if strict else [trows]
+    for gi, grp in enumerate(groups):
+      rows = len(grp)
+      n = rows * (k + 1)
+      formula, mdeps, mk, tcells = [], [], [], []
+      for ri, rid in enumerate(grp):
+        base = ri * (k + 1)
+        for i in range(k):
+          formula.append(True); mdeps.append([base + j for j in deps[i]]); mk.append(konst[i])
+        formula.append(False); mdeps.append([]); mk.append(dvals[row_ids.index(rid)])
+        tcells.extend(row_cells[rid])
+      trace = []
+      for (kind, t, c, r) in rec.trace:
+        if t == tid and c.startswith("c") and c[1:].isdigit():
+          if r in grp:
+            trace.append([kind, grp.index(r) * (k + 1) + int(c[1:])])
+          elif r not in trows and gi == 0:
+            trace.append([kind, n])
+      ops.append({"m": "recalc", "op": "graph", "n": n, "formula": formula, "deps": mdeps, "konst": mk,
+                  "order": list(range(n)), "trace": trace})
+      metas.append({"k": k, "rows": rows, "deps": deps, "konst": konst,
+                    "dvals": [dvals[row_ids.index(rid)] for rid in grp], "perm": perm,
+                    "engine_cells": tcells, "trace": trace, "when": when, "row_ids": grp})
 
+
+# --------------------------------------------------------------------------- replay
 
 def replay(ck, rp):
   common.setup_repo_path()
@@ -174,6 +639,17 @@ def replay(ck, rp):
   r = rp["replay"]
   if "graph" in r:
     r = r["graph"]
+  if r.get("steps"):
+    # exact: the steps the table went through, from the initial build on
+    doc = ed.Doc()
+    g = GraphTable(ck, doc, "G", r["k"], r["deps0"], r["konst"], r["dvals0"], r.get("perm"), None, None)
+    for st in r["steps"]:
+      ok = g.do(st)
+      print("replay step %r -> %s  %s" % (st, "ok" if ok else "STOPPED", g.snap() if ok else None))
+      if not ok:
+        break
+    ck.nontrivial_case("replay"); ck.nontrivial_case("replay2")
+    return
   k, deps, konst, dvals = r["k"], r["deps"], r["konst"], r["dvals"]
   doc = ed.Doc()
   with rh.Recording(perm_seed=r.get("perm"), trace=True, reads=True) as rec:
